@@ -235,8 +235,7 @@ let run_read (c : case) =
   | RFalse f -> pr "result=false st=%s\n" (st f); mesh_block f false true
   | RExn LengthError -> pr "result=exn:length_error st=?\n"
   | RExn BadAlloc -> pr "result=exn:bad_alloc st=?\n"
-  | RUB UB_handle_overflow -> pr "!! UB handle_overflow\n"
-  | RUB UB_invalid_halfface -> pr "!! UB invalid_halfface\n"
+  | RUB -> pr "!! UB handle_overflow\n"
   | RSpin -> pr "!! SPIN\n"
 
 (* mode=encode: the harness's observed block of a write case (nv / E / F / C / POS / del / W lines) -> write_ascii *)
@@ -284,7 +283,7 @@ let run_encode (c : case) =
         | _ -> pr "model_rt=readfail2\n")
    | RFalse _ -> pr "model_rt=readfail\n"
    | RExn _ -> pr "model_rt=exn\n"
-   | RUB _ -> pr "model_rt=ub\n"
+   | RUB -> pr "model_rt=ub\n"
    | RSpin -> pr "model_rt=spin\n")
 
 let run_case (c : case) =
